@@ -176,7 +176,10 @@ def cube_ops(c, rng, case):
         oper = rng.choice([np.nansum, np.nanmean] if has_nan else [np.mean, np.sum, np.nansum, np.nanmean])
         # the propagation operation left to be inferred, or named explicitly (documented keyword, forwarded by rebin)
         pkw = {"propagation_operation": np.add} if (prop and rng.random() < 0.4) else {}
-        rebin_op = ("rebin", "rebin", lambda: c.rebin(bins, operation=oper, propagate_uncertainties=prop, **pkw))
+        # ... and the default propagation asked for as True or by naming the default function itself (documented)
+        from ndcube.utils.cube import propagate_rebin_uncertainties
+        prop_arg = propagate_rebin_uncertainties if (prop and rng.random() < 0.35) else prop
+        rebin_op = ("rebin", "rebin", lambda: c.rebin(bins, operation=oper, propagate_uncertainties=prop_arg, **pkw))
         # in-place bookkeeping of the uncertainty propagation is where rebin could reach its source:
         # give that combination more weight
         nothing_masked = c.mask is not None and not isinstance(c.mask, bool) and not np.asarray(c.mask).any()
